@@ -159,8 +159,7 @@ def _entry(v):
     # a Part
     data = None
     if v.file is not None:
-        v.file.seek(0)
-        data = v.file.read()
+        data = v.file.read()        # as a handler would: no seek first
         v.file.seek(0)
     elif v.value is not None:
         data = v.value
@@ -559,20 +558,29 @@ def _gen_batch(args):
     return [gen_case(rng, big=(i % 25 == 24)) for i in range(n)]
 
 
+def _worker(args):
+    from .c05 import _WorkerCtx
+    w = _WorkerCtx(DRIVER)
+    check_cases(w, _gen_batch(args))
+    return w.cases, w.hist, w.kept_fails(), w.disagreements[:20], w.ncompared, w.driver.lines
+
+
 def run(ctx):
     for e in ctx.known:
         if e.get('status') == 'known' and e.get('witness'):
             check_cases(ctx, [e['witness']], stats=False)
     check_cases(ctx, corpus_cases(), stats=False)
     if ctx.quick():
-        cases = [gen_case(ctx.rng, big=(i % 40 == 39)) for i in range(1800)]
+        cases = [gen_case(ctx.rng, big=(i % 40 == 39)) for i in range(2600)]
         check_cases(ctx, cases)
     else:
+        from .c05 import merge_worker
         nproc = 12
         seeds = [ctx.rng.randrange(1 << 30) for _ in range(nproc * 3)]
-        batches = common.parallel_map(_gen_batch, [(s, 2500) for s in seeds], procs=nproc)
-        for b in batches:
-            check_cases(ctx, b)
+        if ctx.model(['42 5 -']) is None:
+            raise common.HarnessError('driver unavailable in thorough tier')
+        for res in common.parallel_map(_worker, [(s, 3000) for s in seeds], procs=nproc):
+            merge_worker(ctx, res)
         small = list(enum_small())
         check_cases(ctx, small, stats=False)
         ctx.extra['exhaustive_small_scope'] = len(small)
